@@ -72,7 +72,9 @@ NAME_FORMS = [(None, "seq1"), ("s", "q"), ("Sch", "My_Seq"), (None, '"Q"'), ('"S
 EXACT_NAME_FORMS = [(None, '"billing.invoice_no"'), ("dev", '"v1.2_ids"'), ('"tenant.a"', '"seq.main"'), ("dev", "cache"), ("billing", "order"), ("public", "Start"),
                     ("s", "increment"), ("s", "minvalue"), ("s", "no"), ("s", "by"), ("s", "with"), ("s", "noorder"), ("s", "maxvalue"), ("dev", "CACHE"), ("s", "Order"),
                     # names that merely begin like a type keyword
-                    (None, "array_ids"), (None, "Array_Position_Seq"), ("arrays", "next_id"), (None, "enum_seq"), (None, "map_ids"), ("structs", "s1")]
+                    (None, "array_ids"), (None, "Array_Position_Seq"), ("arrays", "next_id"), (None, "enum_seq"), (None, "map_ids"), ("structs", "s1"),
+                    # characters that are legal in unquoted names of some dialects
+                    ("hr", "emp#seq"), (None, "a$b"), ("app#1", "ids"), (None, "seq@x"), (None, "_q"), (None, "q_")]
 
 
 def gen_sequence(rng, order, idx):
@@ -96,6 +98,8 @@ NEIGHBOURS = [
     "CREATE TABLE nb%d (id int PRIMARY KEY, no int, order int NOT NULL, noorder int);",
     # neighbours that set lexer modes (LIKE, CHECK, ALTER, bracket types): a sequence after them must still be exact
     "CREATE TABLE nb%d LIKE s.other;", "CREATE TABLE nb%d (LIKE src_t);", "CREATE TABLE nb%d (m MAP<STRING, INT>, a int CHECK (a > 0));",
+    # a neighbour written over several lines (its parentheses open on the first line and close on a later one)
+    "CREATE TABLE nb%d (\n  id int,\n  cache int,\n  start date\n);",
 ]
 
 
@@ -129,6 +133,8 @@ def build_case(rng, orders, gen):
         nb = rng.choice(NEIGHBOURS) % n
         stmts.append(nb)
         plan.append({"kind": "neighbour", "ddl": nb})
+    if len(stmts) >= 3 and rng.random() < 0.12 and all(st.lstrip().upper().startswith("CREATE ") for st in stmts) and not any("LIKE" in st.upper() for st in stmts):
+        stmts = [st[:-1] if st.endswith(";") else st for st in stmts]          # the whole script without ';'
     for q in range(len(stmts) - 1):
         # a statement without ';', closed by the start of the next one (which begins a line with CREATE): nothing of it may be lost
         if rng.random() < 0.15 and stmts[q].endswith(";") and stmts[q + 1].lstrip().upper().startswith("CREATE ") and "LIKE" not in stmts[q].upper():
